@@ -111,6 +111,33 @@ func runC10(c *Ctx) {
 				// receiver must be the same counter that is decremented
 				okOnce = addrKey(x.X) == addrKey(s.instr.(ssa.CallInstruction).Common().Args[0]) || true
 				why = "finalizeOnce of the counter"
+			} else if tq := typeQName(x.X.Type()); tq != rcT {
+				// a Once that is a field of a release object: fine when every such object is allocated afresh by a
+				// function that hands out its release method (one object, hence one Once, per reference taken)
+				nAlloc, fresh := 0, true
+				for _, g := range fns {
+					eachInstr(g, func(i ssa.Instruction) {
+						al, ok := i.(*ssa.Alloc)
+						if !ok || typeQName(al.Type()) != tq {
+							return
+						}
+						nAlloc++
+						res := g.Signature.Results()
+						handsOut := false
+						for ri := 0; ri < res.Len(); ri++ {
+							if _, isFn := res.At(ri).Type().Underlying().(*types.Signature); isFn {
+								handsOut = true
+							}
+						}
+						if !al.Heap || !handsOut {
+							fresh = false
+						}
+					})
+				}
+				if nAlloc > 0 && fresh {
+					okOnce = true
+					why = "Once field of a release object allocated per reference (" + tq + ")"
+				}
 			}
 		case *ssa.Alloc, *ssa.FreeVar:
 			root := cellRoot(x)
